@@ -106,12 +106,14 @@ Example c13_heap_nonvacuous :
     Done [(1, 1); (2, 2); (3, 3); (3, 3); (5, 5); (7, 7); (9, 9)]%Z.
 Proof. vm_compute. reflexivity. Qed.
 
-(* Known finding C13-rounding-noise (open): the hypothesis root_ok cannot be dropped, and the real
-   distance function violates it by floating-point rounding (two formulas for the same quantity):
-   a node whose key is above the distance of an item under it lets an item of another node out
-   first.  Witness in units of one float64 step at 5003771.699 m, as observed on the server
+(* Finding C13-rounding-noise (repaired by proposed_fixes/C13-nearby-node-key-margin.diff): the
+   hypothesis root_ok cannot be dropped, and before the repair the real key function violated it by
+   floating-point rounding (two formulas for the same quantity): a node whose key is above the
+   distance of an item under it lets an item of another node out first.  Witness in units of one
+   float64 step at 5003771.699 m, as observed on the unrepaired server
    (corpus/C13/rounding-noise-order-65pts.txt): a node key above an item under it (6 over 4; the
-   server's heap needs only a tie, the model's first-minimum pop needs one step more), other item at 5. *)
+   server's heap needs only a tie, the list queue's first-minimum pop needs one step more), other
+   item at 5. *)
 Theorem c13_order_without_hlb_refuted :
   exists (d lb : Z -> Z) (root : option (@tree Z Z)) l,
     (forall i, (0 <= d i)%Z) /\ knn d lb list_push pop_min root = Done l /\ ~ dist_sorted l.
